@@ -31,17 +31,19 @@ structure Frame (s s' : State) : Prop where
   log : s'.log = s.log
   len : s.heap.length ≤ s'.heap.length
   dead : ∀ x : Nat, x < s.heap.length → s.get x = none → s'.get x = none
-  pend : ∀ (x : Nat) xb, s.get x = some xb → xb.pending = true → ∃ xb', s'.get x = some xb' ∧ xb'.pending = true
+  same : ∀ (x : Nat) xb, s.get x = some xb → ∃ xb', s'.get x = some xb' ∧ xb'.dtor = xb.dtor ∧ xb'.pending = xb.pending
+  stuck : s'.stuck = s.stuck
 
 theorem Frame.refl (s : State) : Frame s s :=
-  ⟨rfl, Nat.le_refl _, fun _ _ h => h, fun x xb h hp => ⟨xb, h, hp⟩⟩
+  ⟨rfl, Nat.le_refl _, fun _ _ h => h, fun x xb h => ⟨xb, h, rfl, rfl⟩, rfl⟩
 
 theorem Frame.trans {a b c : State} (h1 : Frame a b) (h2 : Frame b c) : Frame a c := by
-  refine ⟨h2.log.trans h1.log, Nat.le_trans h1.len h2.len, ?_, ?_⟩
+  refine ⟨h2.log.trans h1.log, Nat.le_trans h1.len h2.len, ?_, ?_, h2.stuck.trans h1.stuck⟩
   · intro x hx hn; exact h2.dead x (Nat.lt_of_lt_of_le hx h1.len) (h1.dead x hx hn)
-  · intro x xb hx hp
-    obtain ⟨xb1, h3, h4⟩ := h1.pend x xb hx hp
-    exact h2.pend x xb1 h3 h4
+  · intro x xb hx
+    obtain ⟨xb1, h3, h4, h5⟩ := h1.same x xb hx
+    obtain ⟨xb2, h6, h7, h8⟩ := h2.same x xb1 h3
+    exact ⟨xb2, h6, h7.trans h4, h8.trans h5⟩
 
 theorem LogInv.frame {s s' : State} (i : LogInv s) (f : Frame s s') : LogInv s' := by
   refine ⟨by rw [f.log]; exact i.wf, ?_, ?_, ?_⟩
@@ -51,25 +53,45 @@ theorem LogInv.frame {s s' : State} (i : LogInv s) (f : Frame s s') : LogInv s' 
   · intro x hx; rw [f.log] at hx ⊢
     rcases i.okRel x hx with h | ⟨xb, h1, h2⟩
     · exact Or.inl h
-    · exact Or.inr (f.pend x xb h1 h2)
+    · obtain ⟨xb', h3, -, h4⟩ := f.same x xb h1
+      exact Or.inr ⟨xb', h3, by rw [h4]; exact h2⟩
 
-/-- a field update that clears no FLAG_PENDING -/
-theorem frame_modify (s : State) (i : Nat) (f : Obj → Obj) (hf : ∀ x : Obj, x.pending = true → (f x).pending = true) :
+/-- a field update that touches neither FLAG_PENDING nor the destructor slot -/
+theorem frame_modify (s : State) (i : Nat) (f : Obj → Obj)
+    (hf : ∀ x : Obj, (f x).dtor = x.dtor ∧ (f x).pending = x.pending) :
     Frame s (s.modify i f) := by
-  refine ⟨rfl, by simp, ?_, ?_⟩
+  refine ⟨rfl, by simp, ?_, ?_, rfl⟩
   · intro x _ hn
     rw [get_modify]; split
     · rw [hn]; rfl
     · exact hn
-  · intro x xb hx hp
+  · intro x xb hx
     rw [get_modify]; split
-    · rw [hx]; exact ⟨f xb, rfl, hf xb hp⟩
-    · exact ⟨xb, hx, hp⟩
+    · rw [hx]; exact ⟨f xb, rfl, (hf xb).1, (hf xb).2⟩
+    · exact ⟨xb, hx, rfl, rfl⟩
+
+/-- any field update that clears no FLAG_PENDING keeps the log invariant -/
+theorem LogInv.modify {s : State} (i : LogInv s) (j : Nat) (f : Obj → Obj)
+    (hf : ∀ x : Obj, x.pending = true → (f x).pending = true) : LogInv (s.modify j f) := by
+  refine ⟨i.wf, ?_, ?_, ?_⟩
+  · intro e he; simp only [length_modify]; exact i.bound e he
+  · intro x hx
+    have := i.relDead x hx
+    rw [get_modify]; split
+    · rw [this]; rfl
+    · exact this
+  · intro x hx
+    rcases i.okRel x hx with h | ⟨xb, h1, h2⟩
+    · exact Or.inl h
+    · right
+      rw [get_modify]; split
+      · rw [h1]; exact ⟨f xb, rfl, hf xb h2⟩
+      · exact ⟨xb, h1, h2⟩
 
 theorem frame_setOof (s : State) : Frame s s.setOof :=
-  ⟨rfl, Nat.le_refl _, fun _ _ h => h, fun x xb h hp => ⟨xb, h, hp⟩⟩
-theorem frame_setStuck (s : State) : Frame s s.setStuck :=
-  ⟨rfl, Nat.le_refl _, fun _ _ h => h, fun x xb h hp => ⟨xb, h, hp⟩⟩
+  ⟨rfl, Nat.le_refl _, fun _ _ h => h, fun x xb h => ⟨xb, h, rfl, rfl⟩, rfl⟩
+/-- the ghost flag `stuck` is no part of the log invariant -/
+theorem LogInv.setStuck {s : State} (i : LogInv s) : LogInv s.setStuck := ⟨i.wf, i.bound, i.relDead, i.okRel⟩
 
 theorem frame_detach (s : State) (t : Nat) : Frame s (detach s t) := by
   unfold detach
@@ -77,13 +99,13 @@ theorem frame_detach (s : State) (t : Nat) : Frame s (detach s t) := by
   · exact Frame.refl _
   · split
     · exact Frame.refl _
-    · exact frame_modify s _ _ (fun _ h => h)
+    · exact frame_modify s _ _ (fun _ => ⟨rfl, rfl⟩)
 
 theorem frame_addChild (s : State) (p : Option Id) (t : Nat) (b : Bool) : Frame s (addChild s p t b) := by
   unfold addChild
   split
   · exact Frame.refl _
-  · exact frame_modify s _ _ (fun _ h => h)
+  · exact frame_modify s _ _ (fun _ => ⟨rfl, rfl⟩)
 
 
 theorem frame_applyLim (cfg : Cfg) (f : Nat) (s : State) (t : Option Id) (d : Int) (force : Bool) (s' : State)
@@ -112,7 +134,7 @@ theorem frame_applyLim (cfg : Cfg) (f : Nat) (s : State) (t : Option Id) (d : In
                   · cases h
                   · cases h
                     rename_i s'' hs''
-                    exact (ih _ _ _ hs'').trans (frame_modify _ _ _ (fun _ h => h))
+                    exact (ih _ _ _ hs'').trans (frame_modify _ _ _ (fun _ => ⟨rfl, rfl⟩))
 
 theorem frame_applyLim_getD (cfg : Cfg) (f : Nat) (s : State) (t : Option Id) (d : Int) (force : Bool) :
     Frame s ((applyLim cfg f s t d force).getD s) := by
@@ -123,12 +145,12 @@ theorem frame_applyLim_getD (cfg : Cfg) (f : Nat) (s : State) (t : Option Id) (d
 theorem frame_walkSync (s : State) (t : Nat) (o : Obj) (op : WOp) : Frame s (walkSync s t o op).1 := by
   cases op with
   | none => exact Frame.refl s
-  | set => exact frame_modify s t _ (fun _ h => h)
+  | set => exact frame_modify s t _ (fun _ => ⟨rfl, rfl⟩)
   | clear =>
     simp only [walkSync]
     split
     · exact Frame.refl s
-    · exact frame_modify s t _ (fun _ h => h)
+    · exact frame_modify s t _ (fun _ => ⟨rfl, rfl⟩)
 
 theorem frame_walk (cfg : Cfg) (f : Nat) (s : State) (t : Nat) (op : WOp) : Frame s (walk cfg f s t op).1 := by
   induction f generalizing s t op with
@@ -163,10 +185,10 @@ theorem frame_moveApply (cfg : Cfg) (fuel : Nat) (s1 : State) (t : Nat) (newp ol
     · exact Frame.refl _
   simp only []
   split
-  · exact h2.trans ((frame_applyLim_getD _ _ _ _ _ _).trans (frame_modify _ _ _ (fun _ h => h)))
+  · exact h2.trans ((frame_applyLim_getD _ _ _ _ _ _).trans (frame_modify _ _ _ (fun _ => ⟨rfl, rfl⟩)))
   · split
     · split
-      · exact h2.trans (frame_modify _ _ _ (fun _ h => h))
+      · exact h2.trans (frame_modify _ _ _ (fun _ => ⟨rfl, rfl⟩))
       · exact h2
     · exact h2
 
@@ -187,7 +209,7 @@ theorem frame_moveChild (cfg : Cfg) (s : State) (t : Nat) (tnew told : Option Id
     simp only []
     exact (frame_detach s t).trans ((frame_addChild (detach s t) tnew t (isRef tb)).trans
       ((frame_modify (addChild (detach s t) tnew t (isRef tb)) t (fun x => { x with parent := tnew })
-        (fun _ h => h)).trans (frame_moveMemlimit _ _ _ _ _)))
+        (fun _ => ⟨rfl, rfl⟩)).trans (frame_moveMemlimit _ _ _ _ _)))
 
 theorem frame_reparent (cfg : Cfg) (s : State) (oldp newp : Option Id) (o : Nat) :
     Frame s (reparent cfg s oldp newp o).1 := by
@@ -224,20 +246,33 @@ theorem frame_promoteMove (cfg : Cfg) (s : State) (o : Nat) (ob rb : Obj) (rest 
   simp only []
   have h4 : Frame s (addChild (((detach (s.modify o fun x => { x with refs := rest }) o).modify o
       fun x => { x with parent := rb.parent })) rb.parent o (isRef ob)) :=
-    (frame_modify s o (fun x => { x with refs := rest }) (fun _ h => h)).trans
+    (frame_modify s o (fun x => { x with refs := rest }) (fun _ => ⟨rfl, rfl⟩)).trans
       ((frame_detach (s.modify o fun x => { x with refs := rest }) o).trans
         ((frame_modify (detach (s.modify o fun x => { x with refs := rest }) o) o
-          (fun x => { x with parent := rb.parent }) (fun _ h => h)).trans (frame_addChild _ _ _ _)))
+          (fun x => { x with parent := rb.parent }) (fun _ => ⟨rfl, rfl⟩)).trans (frame_addChild _ _ _ _)))
   split
   · exact h4.trans (frame_moveMemlimit _ _ _ _ _)
   · exact h4
 
-theorem frame_loopEnter (s : State) (o c : Nat) : Frame s (loopEnter s o c) := by
+theorem logInv_loopEnter {s : State} (i : LogInv s) (o c : Nat) : LogInv (loopEnter s o c) := by
   unfold loopEnter
   split
-  · exact Frame.refl s
-  · exact frame_setStuck s
+  · exact i
+  · exact i.setStuck
 
+
+theorem stuck_freeBegin (s : State) (o : Nat) (ob : Obj) (d' : Dtor) (logged : Bool) :
+    (freeBegin s o ob d' logged).stuck = s.stuck := by
+  unfold freeBegin
+  simp only []
+  rw [(frame_detach _ o).stuck]
+  cases ob.kind <;> cases logged <;> rfl
+
+theorem stuck_freeEnd (cfg : Cfg) (s3 : State) (o : Nat) (ob3 : Obj) (h : s3.get o = some ob3)
+    (hc : ob3.children = []) : (freeEnd cfg s3 o).1.stuck = s3.stuck := by
+  unfold freeEnd
+  simp only [h, hc, List.isEmpty_nil, if_true]
+  exact (frame_applyLim_getD _ _ _ _ _ _).stuck
 
 /-- a live object that is not being freed has neither an accepted destructor call nor a release
 in the log -/
@@ -321,7 +356,7 @@ theorem logInv_freeBegin {s : State} (i : LogInv s) (o : Nat) (ob : Obj) (d' : D
   unfold freeBegin
   simp only []
   have i0 : LogInv (s.modify o fun x => { x with dtor := d', pending := true }) :=
-    i.frame (frame_modify s o _ (fun _ _ => rfl))
+    i.modify o _ (fun _ _ => rfl)
   have h0 : (s.modify o fun x => { x with dtor := d', pending := true }).get o =
       some { ob with dtor := d', pending := true } := by simp [ho]
   have i1 : LogInv (if logged = true then (s.modify o fun x => { x with dtor := d', pending := true }).addLog
@@ -331,7 +366,7 @@ theorem logInv_freeBegin {s : State} (i : LogInv s) (o : Nat) (ob : Obj) (d' : D
     · exact i0
   refine LogInv.frame ?_ (frame_detach _ o)
   split
-  · exact i1.frame (frame_modify _ _ _ (fun _ h => h))
+  · exact i1.frame (frame_modify _ _ _ (fun _ => ⟨rfl, rfl⟩))
   · exact i1
 
 theorem logInv_freeEnd {s3 : State} (cfg : Cfg) (i : LogInv s3) (o : Nat) : LogInv (freeEnd cfg s3 o).1 := by
@@ -343,7 +378,7 @@ theorem logInv_freeEnd {s3 : State} (cfg : Cfg) (i : LogInv s3) (o : Nat) : LogI
     have i3 : LogInv (if ob3.children.isEmpty = true then s3 else s3.setStuck) := by
       split
       · exact i
-      · exact i.frame (frame_setStuck s3)
+      · exact i.setStuck
     have h3' : (if ob3.children.isEmpty = true then s3 else s3.setStuck).get o = some ob3 := by
       split
       · exact h3
@@ -379,7 +414,7 @@ theorem run_logInv (cfg : Cfg) (f : Nat) : ∀ (s : State) (c : Call), LogInv s 
             · -- the destructor refuses
               rename_i d' _ _
               have i0 : LogInv (s.modify o fun x => { x with dtor := d' }) :=
-                i.frame (frame_modify s o _ (fun _ h => h))
+                i.modify o _ (fun _ h => h)
               exact i0.addRefuse (xb := { ob with dtor := d' }) (by simp [ho]) f1 f2
             · exact logInv_freeEnd cfg (ih _ _ (logInv_freeBegin i o ob _ _ ho hnp')) o
     | unlink ctx o =>
@@ -400,7 +435,7 @@ theorem run_logInv (cfg : Cfg) (f : Nat) : ∀ (s : State) (c : Call), LogInv s 
       split
       · exact i
       · rename_i c
-        have i1 := i.frame (frame_loopEnter s o c)
+        have i1 := logInv_loopEnter i o c
         split
         · exact i1
         · split
@@ -412,14 +447,14 @@ theorem run_logInv (cfg : Cfg) (f : Nat) : ∀ (s : State) (c : Call), LogInv s 
 
 
 theorem frame_push (s : State) (nb : Obj) : Frame s (s.push nb) := by
-  refine ⟨rfl, by simp, ?_, ?_⟩
+  refine ⟨rfl, by simp, ?_, ?_, rfl⟩
   · intro x hx hn; rw [get_push]; simp only [Nat.ne_of_lt hx, if_false]; exact hn
-  · intro x xb hx hp
+  · intro x xb hx
     have := lt_of_get s x xb hx
-    exact ⟨xb, by rw [get_push]; simp only [Nat.ne_of_lt this, if_false]; exact hx, hp⟩
+    exact ⟨xb, by rw [get_push]; simp only [Nat.ne_of_lt this, if_false]; exact hx, rfl, rfl⟩
 
 theorem frame_withNull (s : State) (n : Option Id) : Frame s { s with nullCtx := n } :=
-  ⟨rfl, Nat.le_refl _, fun _ _ h => h, fun x xb h hp => ⟨xb, h, hp⟩⟩
+  ⟨rfl, Nat.le_refl _, fun _ _ h => h, fun x xb h => ⟨xb, h, rfl, rfl⟩, rfl⟩
 
 theorem frame_hdrAlloc (cfg : Cfg) (s : State) (cx : Nat) (parent : Option Id) (len : Nat) (prepend : Bool)
     (kind : Kind) (fail : Bool) : Frame s (hdrAlloc cfg s cx parent len prepend kind fail).1 := by
@@ -441,9 +476,9 @@ theorem frame_setLimitConfigure (cfg : Cfg) (s : State) (o l : Nat) (max : Nat) 
   simp only []
   have h3 : Frame s ((s.modify l fun x => { x with lmax := max, lcur := 0 }).modify o
       fun x => { x with useLim := true, hasLim := true }) :=
-    (frame_modify s l (fun x => { x with lmax := max, lcur := 0 }) (fun _ h => h)).trans
+    (frame_modify s l (fun x => { x with lmax := max, lcur := 0 }) (fun _ => ⟨rfl, rfl⟩)).trans
       (frame_modify (s.modify l fun x => { x with lmax := max, lcur := 0 }) o
-        (fun x => { x with useLim := true, hasLim := true }) (fun _ h => h))
+        (fun x => { x with useLim := true, hasLim := true }) (fun _ => ⟨rfl, rfl⟩))
   generalize ((s.modify l fun x => { x with lmax := max, lcur := 0 }).modify o
       fun x => { x with useLim := true, hasLim := true }) = s3 at h3 ⊢
   have hfold : ∀ (cs : List Id) (acc : State × Nat), Frame acc.1 (cs.foldl
@@ -466,7 +501,7 @@ theorem frame_setLimitConfigure (cfg : Cfg) (s : State) (o l : Nat) (max : Nat) 
         · exact frame_walk _ _ _ _ _
       · exact Frame.refl _
   split
-  · exact h3.trans ((hfold (childrenOf s3 o) (s3, 0)).trans (frame_modify _ l _ (fun _ h => h)))
+  · exact h3.trans ((hfold (childrenOf s3 o) (s3, 0)).trans (frame_modify _ l _ (fun _ => ⟨rfl, rfl⟩)))
   · exact h3
 
 /-- **the log through every public operation** (any arguments, any configuration) -/
@@ -481,7 +516,7 @@ theorem step_logInv (cfg : Cfg) (s : State) (op : Op) (i : LogInv s) : LogInv (s
     · exact i
     · have i1 := i.frame (frame_hdrAlloc cfg s (cxOf s ctx) ctx REFSIZE true (.ref o) fl)
       split
-      · exact i1.frame (frame_modify _ o _ (fun _ h => h))
+      · exact i1.frame (frame_modify _ o _ (fun _ => ⟨rfl, rfl⟩))
       · exact i1
   | unlink ctx o => exact run_logInv cfg _ s _ i
   | steal np o =>
@@ -510,18 +545,18 @@ theorem step_logInv (cfg : Cfg) (s : State) (op : Op) (i : LogInv s) : LogInv (s
                 have i1 := i.frame (frame_applyLim _ _ _ _ _ _ _ h1)
                 split
                 · exact i1.frame (frame_applyLim_getD _ _ _ _ _ _)
-                · exact i1.frame (frame_modify _ o _ (fun _ h => h))
+                · exact i1.frame (frame_modify _ o _ (fun _ => ⟨rfl, rfl⟩))
   | setDtor o d =>
     simp only [step]
     split
     · exact i
-    · exact i.frame (frame_modify _ o _ (fun _ h => h))
+    · exact i.modify o _ (fun _ h => h)
   | setLimit o mx fl =>
     simp only [step, setLimit]
     split
     · exact i
     · split
-      · have i1 := i.frame (frame_modify s o (fun x => { x with hasLim := false }) (fun _ h => h))
+      · have i1 := i.frame (frame_modify s o (fun x => { x with hasLim := false }) (fun _ => ⟨rfl, rfl⟩))
         split
         · exact run_logInv cfg _ _ _ i1
         · exact i1
@@ -554,9 +589,9 @@ theorem step_logInv (cfg : Cfg) (s : State) (op : Op) (i : LogInv s) : LogInv (s
         | cons c cs ih =>
           intro acc
           simp only [List.foldl_cons]
-          exact (frame_modify acc c (fun x => { x with parent := none }) (fun _ h => h)).trans (ih _)
+          exact (frame_modify acc c (fun x => { x with parent := none }) (fun _ => ⟨rfl, rfl⟩)).trans (ih _)
       have i2 := (i.frame (hfold (childrenOf s n) s)).frame
-        (frame_modify _ n (fun x => { x with children := [] }) (fun _ h => h))
+        (frame_modify _ n (fun x => { x with children := [] }) (fun _ => ⟨rfl, rfl⟩))
       exact (run_logInv cfg _ _ _ i2).frame (frame_withNull _ _)
 
 theorem logInv_empty : LogInv {} := by
@@ -592,5 +627,339 @@ theorem LogWF.counts {log : List Event} (h : LogWF log) (x : Id) :
     · subst e; rw [List.count_eq_zero.2 h2]; simp
     · have : (Event.release y == Event.release x) = false := by simp [e]
       rw [this]; simp; exact ih.1
+
+
+/-! ## released with a destructor set ⇒ the destructor has run -/
+
+/-- every tracked object has had its destructor accept, or is still live, not being freed, with a
+destructor set -/
+def DtorDue (T : Id → Prop) (s : State) : Prop :=
+  ∀ x, T x → Event.dtorOk x ∈ s.log ∨ ∃ xb, s.get x = some xb ∧ xb.dtor ≠ .none ∧ xb.pending = false
+
+def LogLe (s s' : State) : Prop := ∀ e ∈ s.log, e ∈ s'.log
+
+theorem LogLe.refl (s : State) : LogLe s s := fun _ h => h
+theorem LogLe.trans {a b c : State} (h1 : LogLe a b) (h2 : LogLe b c) : LogLe a c := fun e h => h2 e (h1 e h)
+theorem Frame.logLe {s s' : State} (f : Frame s s') : LogLe s s' := fun e h => by rw [f.log]; exact h
+
+theorem DtorDue.frame {T : Id → Prop} {s s' : State} (h : DtorDue T s) (f : Frame s s') : DtorDue T s' := by
+  intro x hx
+  rcases h x hx with h1 | ⟨xb, h1, h2, h3⟩
+  · exact Or.inl (f.logLe _ h1)
+  · obtain ⟨xb', h4, h5, h6⟩ := f.same x xb h1
+    exact Or.inr ⟨xb', h4, by rw [h5]; exact h2, by rw [h6]; exact h3⟩
+
+theorem DtorDue.setStuck {T : Id → Prop} {s : State} (h : DtorDue T s) : DtorDue T s.setStuck := h
+
+theorem dtorStep_logged {d d' : Dtor} {a l : Bool} (h : dtorStep d = (a, d', l)) (hd : d ≠ .none) :
+    l = true ∧ d' ≠ .none := by
+  cases d with
+  | none => exact absurd rfl hd
+  | accept => simp only [dtorStep, Prod.mk.injEq] at h; obtain ⟨-, rfl, rfl⟩ := h; simp
+  | reenter => simp only [dtorStep, Prod.mk.injEq] at h; obtain ⟨-, rfl, rfl⟩ := h; simp
+  | refuse n =>
+    cases n with
+    | zero => simp only [dtorStep, Prod.mk.injEq] at h; obtain ⟨-, rfl, rfl⟩ := h; simp
+    | succ n => simp only [dtorStep, Prod.mk.injEq] at h; obtain ⟨-, rfl, rfl⟩ := h; simp
+
+theorem logLe_modify (s : State) (i : Nat) (f : Obj → Obj) : LogLe s (s.modify i f) := fun _ h => h
+
+theorem logLe_freeBegin (s : State) (o : Nat) (ob : Obj) (d' : Dtor) (logged : Bool) :
+    LogLe s (freeBegin s o ob d' logged) := by
+  unfold freeBegin
+  simp only []
+  refine LogLe.trans ?_ (frame_detach _ o).logLe
+  have h1 : LogLe s (if logged = true then (s.modify o fun x => { x with dtor := d', pending := true }).addLog
+      (.dtorOk o) else (s.modify o fun x => { x with dtor := d', pending := true })) := by
+    split
+    · intro e he; exact List.mem_cons_of_mem _ he
+    · intro e he; exact he
+  split
+  · exact h1.trans (logLe_modify _ _ _)
+  · exact h1
+
+/-- `freeBegin` touches the destructor slot and FLAG_PENDING of `o` only -/
+theorem same_freeBegin (s : State) (o : Nat) (ob : Obj) (d' : Dtor) (logged : Bool) (x : Nat) (xb : Obj)
+    (hne : x ≠ o) (hx : s.get x = some xb) :
+    ∃ xb', (freeBegin s o ob d' logged).get x = some xb' ∧ xb'.dtor = xb.dtor ∧ xb'.pending = xb.pending := by
+  unfold freeBegin
+  simp only []
+  generalize hS1 : (if logged = true then (s.modify o fun y => { y with dtor := d', pending := true }).addLog
+      (.dtorOk o) else (s.modify o fun y => { y with dtor := d', pending := true })) = S1
+  have h1 : S1.get x = some xb := by
+    rw [← hS1]
+    split
+    · simp [Ne.symm hne, hx]
+    · simp [Ne.symm hne, hx]
+  cases hk : ob.kind with
+  | ref tgt =>
+    simp only []
+    obtain ⟨xb1, h4, h5, h6⟩ := (frame_modify S1 tgt (fun y => { y with refs := y.refs.erase o })
+      (fun _ => ⟨rfl, rfl⟩)).same x xb h1
+    obtain ⟨xb', h7, h8, h9⟩ := (frame_detach (S1.modify tgt fun y => { y with refs := y.refs.erase o }) o).same x xb1 h4
+    exact ⟨xb', h7, h8.trans h5, h9.trans h6⟩
+  | plain => simp only []; exact (frame_detach S1 o).same x xb h1
+  | limit => simp only []; exact (frame_detach S1 o).same x xb h1
+
+theorem dtorDue_freeBegin {T : Id → Prop} {s : State} (h : DtorDue T s) (o : Nat) (ob : Obj) (a : Bool) (d' : Dtor)
+    (logged : Bool) (ho : s.get o = some ob) (hds : dtorStep ob.dtor = (a, d', logged)) :
+    DtorDue T (freeBegin s o ob d' logged) ∧ (T o → Event.dtorOk o ∈ (freeBegin s o ob d' logged).log) := by
+  have hle := logLe_freeBegin s o ob d' logged
+  have hoo : T o → Event.dtorOk o ∈ (freeBegin s o ob d' logged).log := by
+    intro ht
+    rcases h o ht with h1 | ⟨xb, h1, h2, -⟩
+    · exact hle _ h1
+    · rw [ho] at h1; cases h1
+      obtain ⟨hl, -⟩ := dtorStep_logged hds h2
+      subst hl
+      unfold freeBegin
+      simp only [if_true]
+      apply (frame_detach _ o).logLe
+      split
+      · exact logLe_modify _ _ _ _ (by simp)
+      · simp
+  refine ⟨?_, hoo⟩
+  intro x hx
+  by_cases e : x = o
+  · subst e; exact Or.inl (hoo hx)
+  · rcases h x hx with h1 | ⟨xb, h1, h2, h3⟩
+    · exact Or.inl (hle _ h1)
+    · right
+      obtain ⟨xb', h4, h5, h6⟩ := same_freeBegin s o ob d' logged x xb e h1
+      exact ⟨xb', h4, by rw [h5]; exact h2, by rw [h6]; exact h3⟩
+
+theorem dtorDue_freeEnd {T : Id → Prop} {s3 : State} (cfg : Cfg) (h : DtorDue T s3) (o : Nat)
+    (ho : T o → Event.dtorOk o ∈ s3.log) :
+    LogLe s3 (freeEnd cfg s3 o).1 ∧ DtorDue T (freeEnd cfg s3 o).1 := by
+  unfold freeEnd
+  split
+  · exact ⟨LogLe.refl _, h⟩
+  · rename_i ob3 h3
+    simp only []
+    have f1 : LogLe s3 (if ob3.children.isEmpty = true then s3 else s3.setStuck) ∧
+        DtorDue T (if ob3.children.isEmpty = true then s3 else s3.setStuck) := by
+      split
+      · exact ⟨LogLe.refl _, h⟩
+      · exact ⟨fun _ he => he, h.setStuck⟩
+    generalize (if ob3.children.isEmpty = true then s3 else s3.setStuck) = s3' at f1
+    have h' := f1.2
+    have l1 : LogLe s3' ((s3'.remove o).addLog (.release o)) := fun e he => List.mem_cons_of_mem _ he
+    have d1 : DtorDue T ((s3'.remove o).addLog (.release o)) := by
+      intro x hx
+      by_cases e : x = o
+      · subst e; exact Or.inl (l1 _ (f1.1 _ (ho hx)))
+      · rcases h' x hx with h1 | ⟨xb, h1, h2, h3⟩
+        · exact Or.inl (l1 _ h1)
+        · exact Or.inr ⟨xb, by simp [Ne.symm e, h1], h2, h3⟩
+    have f2 := frame_applyLim_getD cfg ((s3'.remove o).addLog (.release o)).fuel ((s3'.remove o).addLog (.release o))
+      ob3.parent (-(totalSize ob3.size : Int)) false
+    exact ⟨f1.1.trans (l1.trans f2.logLe), d1.frame f2⟩
+
+/-- the log only grows, and no tracked object is lost without its destructor having accepted -/
+def StepT (T : Id → Prop) (s s' : State) : Prop := LogLe s s' ∧ (DtorDue T s → DtorDue T s')
+
+theorem StepT.refl (T : Id → Prop) (s : State) : StepT T s s := ⟨LogLe.refl s, id⟩
+theorem StepT.trans {T : Id → Prop} {a b c : State} (h1 : StepT T a b) (h2 : StepT T b c) : StepT T a c :=
+  ⟨h1.1.trans h2.1, fun h => h2.2 (h1.2 h)⟩
+theorem StepT.of_frame {T : Id → Prop} {s s' : State} (f : Frame s s') : StepT T s s' :=
+  ⟨f.logLe, fun h => h.frame f⟩
+
+theorem run_dtorDue (cfg : Cfg) (T : Id → Prop) (f : Nat) :
+    ∀ (s : State) (c : Call), StepT T s (run cfg f s c).1 := by
+  induction f with
+  | zero => intro s c; simp only [run]; exact .of_frame (frame_setOof s)
+  | succ f ih =>
+    intro s c
+    cases c with
+    | free o =>
+      simp only [run]
+      split
+      · exact .refl T s
+      · rename_i ob ho
+        split
+        · split
+          · exact .refl T s
+          · split
+            · split
+              · exact ih _ _
+              · exact .refl T s
+            · exact .refl T s
+        · split
+          · exact .refl T s
+          · split
+            · -- the destructor refuses
+              rename_i d' l hds
+              refine ⟨fun e he => List.mem_cons_of_mem _ he, ?_⟩
+              intro h x hx
+              rcases h x hx with h1 | ⟨xb, h1, h2, h3⟩
+              · exact Or.inl (List.mem_cons_of_mem _ h1)
+              · right
+                by_cases e : o = x
+                · subst e
+                  rw [ho] at h1; cases h1
+                  exact ⟨{ ob with dtor := d' }, by simp [ho], (dtorStep_logged hds h2).2, h3⟩
+                · exact ⟨xb, by simp [e, h1], h2, h3⟩
+            · rename_i d' logged hds
+              have hle := logLe_freeBegin s o ob d' logged
+              obtain ⟨i1, i2⟩ := ih (freeBegin s o ob d' logged)
+                (.loop o true (childrenOf (freeBegin s o ob d' logged) o).head?)
+              refine ⟨?_, ?_⟩
+              · exact hle.trans (i1.trans ((dtorDue_freeEnd (T := fun _ => False) cfg (fun _ h => h.elim) o
+                  (fun h => h.elim)).1))
+              · intro h
+                obtain ⟨b1, b2⟩ := dtorDue_freeBegin h o ob true d' logged ho hds
+                exact (dtorDue_freeEnd cfg (i2 b1) o (fun ht => i1 _ (b2 ht))).2
+    | unlink ctx o =>
+      simp only [run]
+      split
+      · exact .refl T s
+      · split
+        · split
+          · exact ih _ _
+          · exact .refl T s
+        · split
+          · exact ih _ _
+          · split
+            · exact .refl T s
+            · refine StepT.trans ?_ (ih _ _)
+              exact .of_frame (frame_promoteMove _ _ _ _ _ _ _)
+    | loop o fn cur =>
+      simp only [run]
+      split
+      · exact .refl T s
+      · rename_i c
+        have fe : StepT T s (loopEnter s o c) := by
+          unfold loopEnter
+          split
+          · exact .refl T s
+          · exact ⟨fun _ he => he, fun h => h.setStuck⟩
+        split
+        · exact fe
+        · split
+          · exact fe.trans (ih _ _)
+          · refine fe.trans (StepT.trans ?_ (ih _ _))
+            refine StepT.trans (ih (loopEnter s o c) (.unlink (some o) c)) ?_
+            split
+            · exact .of_frame (frame_throwChild _ _ _)
+            · exact .refl T _
+
+
+/-- every public operation except `talloc_set_destructor` -/
+theorem step_stepT (cfg : Cfg) (T : Id → Prop) (s : State) (op : Op) (hop : ∀ o d, op ≠ .setDtor o d) :
+    StepT T s (step cfg s op).1 := by
+  cases op with
+  | alloc p sz fc fl => simp only [step]; exact .of_frame (frame_hdrAlloc _ _ _ _ _ _ _ _)
+  | free o => exact run_dtorDue cfg T _ s _
+  | freeChildren o => simp only [step]; exact run_dtorDue cfg T _ s _
+  | reference ctx o fl =>
+    simp only [step]
+    split
+    · exact .refl T s
+    · have i1 : StepT T s (hdrAlloc cfg s (cxOf s ctx) ctx REFSIZE true (.ref o) fl).1 :=
+        .of_frame (frame_hdrAlloc cfg s (cxOf s ctx) ctx REFSIZE true (.ref o) fl)
+      split
+      · exact i1.trans (.of_frame (frame_modify _ o _ (fun _ => ⟨rfl, rfl⟩)))
+      · exact i1
+  | unlink ctx o => exact run_dtorDue cfg T _ s _
+  | steal np o =>
+    simp only [step]
+    split
+    · exact .refl T s
+    · split
+      · exact .refl T s
+      · exact .of_frame (frame_reparent _ _ _ _ _)
+  | reparent op' np o => simp only [step]; exact .of_frame (frame_reparent _ _ _ _ _)
+  | realloc p o sz fl =>
+    simp only [step]
+    split
+    · exact .refl T s
+    · split
+      · exact run_dtorDue cfg T _ s _
+      · split
+        · exact .refl T s
+        · split
+          · exact .refl T s
+          · split
+            · exact .refl T s
+            · split
+              · exact .refl T s
+              · rename_i s1 h1
+                have i1 : StepT T s s1 := .of_frame (frame_applyLim _ _ _ _ _ _ _ h1)
+                split
+                · exact i1.trans (.of_frame (frame_applyLim_getD _ _ _ _ _ _))
+                · exact i1.trans (.of_frame (frame_modify _ o _ (fun _ => ⟨rfl, rfl⟩)))
+  | setDtor o d => exact absurd rfl (hop o d)
+  | setLimit o mx fl =>
+    simp only [step, setLimit]
+    split
+    · exact .refl T s
+    · split
+      · have i1 : StepT T s (s.modify o fun x => { x with hasLim := false }) :=
+          .of_frame (frame_modify s o (fun x => { x with hasLim := false }) (fun _ => ⟨rfl, rfl⟩))
+        split
+        · exact i1.trans (run_dtorDue cfg T _ _ _)
+        · exact i1
+      · split
+        · exact .of_frame (frame_setLimitConfigure _ _ _ _ _)
+        · rename_i ob _ _ _ _
+          have i1 : StepT T s (hdrAlloc cfg s ob.cx (some o) LIMSIZE true .limit fl).1 :=
+            .of_frame (frame_hdrAlloc cfg s ob.cx (some o) LIMSIZE true .limit fl)
+          split
+          · exact i1.trans (.of_frame (frame_setLimitConfigure _ _ _ _ _))
+          · exact i1
+  | nullOn fl =>
+    simp only [step]
+    split
+    · exact .refl T s
+    · have i1 : StepT T s (hdrAlloc cfg s 0 none 0 false .plain fl).1 :=
+        .of_frame (frame_hdrAlloc cfg s 0 none 0 false .plain fl)
+      split
+      · exact i1.trans (.of_frame (frame_withNull _ _))
+      · exact i1
+  | nullOff =>
+    simp only [step]
+    split
+    · exact .refl T s
+    · rename_i n _
+      simp only []
+      have hfold : ∀ (cs : List Id) (acc : State), Frame acc
+          (cs.foldl (fun (acc : State) c => acc.modify c fun x => { x with parent := none }) acc) := by
+        intro cs
+        induction cs with
+        | nil => intro acc; exact Frame.refl _
+        | cons c cs ih =>
+          intro acc
+          simp only [List.foldl_cons]
+          exact (frame_modify acc c (fun x => { x with parent := none }) (fun _ => ⟨rfl, rfl⟩)).trans (ih _)
+      have i2 : StepT T s (((childrenOf s n).foldl (fun (acc : State) c => acc.modify c fun x =>
+          { x with parent := none }) s).modify n fun x => { x with children := [] }) :=
+        .of_frame ((hfold (childrenOf s n) s).trans
+          (frame_modify _ n (fun x => { x with children := [] }) (fun _ => ⟨rfl, rfl⟩)))
+      exact (i2.trans (run_dtorDue cfg T _ _ _)).trans (.of_frame (frame_withNull _ _))
+
+/-- **released with a destructor set ⇒ the destructor accepted during that operation**: an object
+that is live, not being freed and has a destructor set before a public operation, and is gone
+after it, has `dtorOk` in the log afterwards (any operation, any arguments, any configuration) -/
+theorem step_released_ran (cfg : Cfg) (s : State) (op : Op) (x : Nat) (xb : Obj) (hx : s.get x = some xb)
+    (hd : xb.dtor ≠ .none) (hp : xb.pending = false) (hgone : (step cfg s op).1.get x = none) :
+    Event.dtorOk x ∈ (step cfg s op).1.log := by
+  have h0 : DtorDue (fun y => y = x) s := by
+    intro y hy; subst hy; exact Or.inr ⟨xb, hx, hd, hp⟩
+  have key : (∀ o d, op ≠ .setDtor o d) → Event.dtorOk x ∈ (step cfg s op).1.log := by
+    intro hop
+    rcases (step_stepT cfg _ s op hop).2 h0 x rfl with h | ⟨xb', h1, -, -⟩
+    · exact h
+    · rw [hgone] at h1; cases h1
+  cases op with
+  | setDtor o d =>
+    exfalso
+    simp only [step] at hgone
+    split at hgone
+    · rw [hx] at hgone; cases hgone
+    · rw [get_modify] at hgone
+      split at hgone
+      · rw [hx] at hgone; cases hgone
+      · rw [hx] at hgone; cases hgone
+  | _ => exact key (by intro o d h; cases h)
 
 end Usual.C01
